@@ -57,8 +57,12 @@ theorem ApplyCanon_step (H : Bytes → Bytes) (s : State) (op : Op) (h : ApplyCa
     all_goals try (exact hs)
     all_goals try (rename_i hcd; rw [commit_frame hcd]; exact hs)
     all_goals try (exact ApplyCanon_erase hs _)
-    all_goals trace_state
-    all_goals sorry
+    all_goals (
+      rename_i b hb _ _ _ _ _ _ _
+      intro kb pk hg
+      by_cases e : kb = b
+      · subst e; simp only [alGet_put_self] at hg; injection hg with hg; subst hg; exact hb
+      · simp only [alGet_put_ne _ _ _ _ e] at hg; exact hs kb pk hg)
   · intro ap hap s1 s2 n _ hs1 hf
     cases op <;> plan_cases hap
     all_goals (dsimp only at hf)
